@@ -126,7 +126,8 @@ type DataSpec struct {
 
 // WriterSpec is the destination writer: FailAt < 0 never fails; otherwise the
 // write that would carry byte offset FailAt fails in the given Form:
-// 0 = (0, err), 1 = (n < len, err), 2 = (len, err), 3 = (0, err) once, later writes succeed again (transient).
+// 0 = (0, err), 1 = (n < len, err), 2 = (len, err), 3 = (0, err) once, later writes succeed again (transient),
+// 4 = (n < len, nil): the failure is reported by the short count alone, every later write returns (0, nil).
 type WriterSpec struct {
 	FailAt int `json:"fail_at"`
 	Form   int `json:"form,omitempty"`
